@@ -416,17 +416,21 @@ fn substring(
 ) -> error::Result<model::Value> {
     let mut args = args.iter();
     let v = String::try_from(args.next().unwrap())?;
-    let s = f64::try_from(args.next().unwrap())?.round() as usize - 1;
-    let c = if let Some(v) = args.next() {
-        Some(f64::try_from(v)?.round() as usize)
+    let s = xpath_round(f64::try_from(args.next().unwrap())?);
+    let e = if let Some(v) = args.next() {
+        s + xpath_round(f64::try_from(v)?)
     } else {
-        None
+        f64::INFINITY
     };
-    let (_, mut r) = v.split_at(s);
-    if let Some(c) = c {
-        (r, _) = r.split_at(c);
-    }
-    Ok(model::Value::Text(r.to_string()))
+    // The characters whose position p (counted from 1) satisfies s <= p < e; comparisons
+    // with NaN are false, so NaN arguments select nothing.
+    let r = v
+        .chars()
+        .enumerate()
+        .filter(|(i, _)| s <= (i + 1) as f64 && ((i + 1) as f64) < e)
+        .map(|(_, c)| c)
+        .collect::<String>();
+    Ok(model::Value::Text(r))
 }
 
 fn string_length(
@@ -595,5 +599,17 @@ fn round(
     _: &mut model::Context,
 ) -> error::Result<model::Value> {
     let arg = f64::try_from(args.first().unwrap())?;
-    Ok(model::Value::Number(arg.round()))
+    Ok(model::Value::Number(xpath_round(arg)))
+}
+
+/// The integer closest to the argument; of two such integers the one closest to positive
+/// infinity (so -0.5 rounds to negative zero, not to -1).
+fn xpath_round(value: f64) -> f64 {
+    if value.is_nan() || value.is_infinite() || value.fract() == 0f64 {
+        value
+    } else if (-0.5..0f64).contains(&value) {
+        -0f64
+    } else {
+        (value + 0.5).floor()
+    }
 }
